@@ -300,6 +300,25 @@ def c03(run: Run):
         if not nonmin and all(b.props[0] in (0x16, 40) for b in f["blocks"]):   # props byte 0 = 4 KiB dictionary: liblzma enforces it, lzma-rs ignores the byte (recorded leniency)
             r = liblzma_xz(f["data"])
             spec_check(run, "xz " + f["desc"], r[0] == "ok" and r[1] == f["out"])
+    # filter chains [LZMA2, LZMA2, …] (accepted by lzma-rs, a recorded leniency): every later filter
+    # re-decodes the previous output, which must itself be an LZMA2 stream
+    def raw_lzma2(data):
+        out = b""
+        for i in range(0, len(data), 65536):
+            c = data[i:i + 65536]
+            out += bytes([1]) + (len(c) - 1).to_bytes(2, "big") + c
+        return out + b"\x00"
+    for i in range(sizes(run.tier, 12, 80)):
+        m = run.rng.pick(lz2)
+        nf = run.rng.pick([2, 3, 4])
+        payload = m["payload"]
+        for _ in range(nf - 1):
+            payload = raw_lzma2(payload)
+        blk = core.XzBlock(payload, m["out"], decl_packed=run.rng.chance(1, 2), decl_unpacked=run.rng.chance(1, 2), nfilters=nf)
+        run.add("xz in=%s" % core.build_xz(run.rng.pick([0, 1, 4]), [blk]).hex(), oracle=exp_ok_out(m["out"]), tag="c03:filter-chain")
+        # filter property field of the wrong length
+        bad = core.XzBlock(m["payload"], m["out"], props=run.rng.pick([b"", b"\x16\x00"]))
+        run.add("xz in=%s" % core.build_xz(1, [bad]).hex(), oracle=exp_err(), tag="c03:filter-props-length")
     # files from liblzma itself
     for i in range(sizes(run.tier, 20, 200)):
         data = run.rng.pick([b"", b"a", b"hello world\n" * 50, run.rng.bytes(3000), bytes(5000)])
